@@ -143,7 +143,7 @@ def apply_op(obj, op):
     if kind == 'add_variable':
         obj.add_variable(name, OPERANDS[arg]())
     elif kind == 'add_variable_dtype':
-        obj.add_variable(name, 1, dtype={'float': float, 'int': int, 'str': str, 'bool': bool}[arg])
+        obj.add_variable(name, {'float': 2.5, 'int': 7, 'str': 'wide1', 'bool': True}[arg], dtype={'float': float, 'int': int, 'str': str, 'bool': bool}[arg])   # a scalar of the dtype asked for
     elif kind == 'setattr':
         setattr(obj, name, OPERANDS[arg]())
     elif kind == 'setitem':
@@ -298,6 +298,8 @@ def step_oracle(obj, op, before_series, before_obs, exc, created, nonstrict_twin
                 want = np.dtype({'float': float, 'int': int, 'str': str, 'bool': bool}[arg])
                 if after[name].dtype.kind != want.kind:
                     out.append(('add_variable-dtype', want.str, after[name].dtype.str, 'dtype= not imposed'))
+                elif after[name].tolist() != [{'float': 2.5, 'int': 7, 'str': 'wide1', 'bool': True}[arg]] * N:
+                    out.append(('add_variable-dtype:values', {'float': 2.5, 'int': 7, 'str': 'wide1', 'bool': True}[arg], after[name].tolist(), 'a scalar with dtype= is not stored as given in every period'))
     if kind == 'setlabel' and name in index_before:
         label, on = arg
         if label not in LABELS:
@@ -561,6 +563,36 @@ def run_strict_name(case):
 
 
 @robust()
+def run_constructor_dtype(case):
+    """Models and linkers built with dtype= / default_value=: every variable of `names` has that dtype and value, `values`
+    has it too, and variables added later follow it."""
+    kind, dt, dv = case['kind'], case['dtype'], case['default_value']
+    dtype = {'int': int, 'bool': bool, 'float32': np.float32, 'float': float}[dt]
+    if kind == 'model':
+        obj = _MODEL(list(LABELS), dtype=dtype, default_value=dv)
+    else:
+        class Lk(BaseLinker):
+            ENDOGENOUS = ['A']
+            EXOGENOUS = ['K']
+            NAMES = ['A', 'K']
+            CHECK = ['A']
+        obj = Lk({'m': _MODEL(list(LABELS))}, dtype=dtype, default_value=dv)
+    out = []
+    want = np.dtype(dtype)
+    for n in obj.names:
+        a = vars(obj)['_' + n]
+        if a.dtype != want or a.tolist() != [want.type(dv).item()] * N:
+            out.append(('constructor-dtype:%s' % kind, [want.str, want.type(dv).item()], [a.dtype.str, a.tolist()], 'variable %s of an object built with dtype=%s, default_value=%r' % (n, dt, dv)))
+            return out
+    if obj.values.dtype != want:
+        out.append(('constructor-dtype:values:%s' % kind, want.str, obj.values.dtype.str, '`values` of an object built with dtype=%s' % dt))
+    obj.add_variable('Later', dv)
+    if vars(obj)['_Later'].dtype != want:
+        out.append(('constructor-dtype:add_variable:%s' % kind, want.str, vars(obj)['_Later'].dtype.str, 'a variable added later does not follow the dtype the object was built with'))
+    return out
+
+
+@robust()
 def run_strict_existing(case):
     """Under strict=True every attribute the object already has (its own bookkeeping attributes included) can still be assigned."""
     kind = case['kind']
@@ -625,6 +657,13 @@ def run_block(block, tier, seed):
                 for key, exp, obs, what in run_strict_name(case):
                     acc.violation(key, case, exp, obs, what)
         acc.sample({'family': 'strict-names', 'kind': block['object'], 'name': 'YX'}, limit=1)
+        if block['part'] == 1 and block['object'] in ('model', 'linker'):
+            for dt, dv in (('int', 3), ('bool', True), ('float32', 0.5), ('float', -1.5), ('int', 0)):
+                case = {'kind': block['object'], 'dtype': dt, 'default_value': dv, 'family': 'constructor-dtype'}
+                acc.evaluations += 1
+                acc.nontrivial += 1
+                for key, exp, obs, what in run_constructor_dtype(case):
+                    acc.violation(key, case, exp, obs, what)
         if block['part'] == 0:
             for late in (False, True):
                 case = {'kind': block['object'], 'late_strict': late, 'family': 'strict-existing'}
@@ -646,6 +685,8 @@ def run_one(case):
         return run_strict_name(case)
     if case.get('family') == 'strict-existing':
         return run_strict_existing(case)
+    if case.get('family') == 'constructor-dtype':
+        return run_constructor_dtype(case)
     return run_transition(case['kind'], tuple(case['hist_idx'][:-1]), case['hist_idx'][-1])[0]
 
 
